@@ -272,7 +272,7 @@ func c04Lost(x *X) {
 }
 
 func init() {
-	register(&Scenario{Prop: "C04", Name: "c04/raw-allmodes", Quick: []Bound{{1, 0}, {2, 0}}, Thorough: []Bound{{2, 0}}, Body: c04Body(c04Modes())})
-	register(&Scenario{Prop: "C04", Name: "c04/raw-poll2", Quick: []Bound{{2, 0}}, Thorough: []Bound{{3, 0}}, Body: c04Body(c04Modes()[7:])})
+	register(&Scenario{Prop: "C04", Name: "c04/raw-allmodes", Quick: []Bound{{1, 0}, {2, 0}}, Thorough: []Bound{{2, 0}}, Body: c04Body(c04Modes()), BudgetQ: 45})
+	register(&Scenario{Prop: "C04", Name: "c04/raw-poll2", Quick: []Bound{{2, 0}}, Thorough: []Bound{{3, 0}}, Body: c04Body(c04Modes()[7:]), BudgetQ: 25})
 	register(&Scenario{Prop: "C04", Name: "c04/lost-response", Quick: []Bound{{2, 0}}, Thorough: []Bound{{3, 0}}, Body: c04Lost})
 }
